@@ -636,9 +636,28 @@ def _transpose_kernel(facts, c):
         if len(outer) != 1 or len(inner) != 1:
             c.unk("transpose:%s:loops" % name, where0, "the two loops are not nested")
             continue
-        o, i = ev.atom("i:" + outer[0]), ev.atom("i:" + inner[0])
+        # roles: the loop over the input's LAST dimension (the filters: its extent is read from `dimensions`) and the loop over the
+        # window positions (everything before it); either may be the outer one
+        def extent_from_dims(lv, hops=0):
+            e_ = strip(nest.loopvars[lv][0])
+            while isinstance(e_, dict) and e_.get("k") in ("VarRef", "UpvarRef") and e_["v"] in nest.lets and hops < 4:
+                e_ = strip(nest.lets[e_["v"]][0])
+                hops += 1
+            if not isinstance(e_, dict):
+                return False
+            ix = _as_index(e_)
+            if ix is None:
+                return False
+            _, ch = F.field_chain(ix["e"])
+            return ch[-1:] == ["dimensions"]
+        fd = [lv for lv in own if extent_from_dims(lv)]
+        if len(fd) != 1:
+            c.unk("transpose:%s:loops" % name, where0, "which of the two loops runs over the input's last dimension is not recognised")
+            continue
+        fl_, pl_ = fd[0], [lv for lv in own if lv != fd[0]][0]
+        f_, p_ = ev.atom("i:" + fl_), ev.atom("i:" + pl_)
         try:
-            No, Ni = ev.extent(outer[0]), ev.extent(inner[0])
+            Fn, Pn = ev.extent(fl_), ev.extent(pl_)
             done = set()
             for kind, idx, node, body in _accesses(nest):
                 if body is not b:
@@ -646,10 +665,10 @@ def _transpose_kernel(facts, c):
                 got = ev.poly(idx["i"])
                 if kind == "load":
                     done.add("src")
-                    _eq(c, "transpose:%s:source" % name, F.loc(body, node), got, i * No + o, "element (inner, outer) of the [inner, outer] input matrix")
+                    _eq(c, "transpose:%s:source" % name, F.loc(body, node), got, p_ * Fn + f_, "element (position, filter) of the [positions, filters] input matrix")
                 else:
                     done.add("dst")
-                    _eq(c, "transpose:%s:destination" % name, F.loc(body, node), got, o * Ni + i, "element (outer, inner) of the [outer, inner] result")
+                    _eq(c, "transpose:%s:destination" % name, F.loc(body, node), got, f_ * Pn + p_, "element (filter, position) of the [filters, positions] result")
             if done != {"src", "dst"}:
                 c.unk("transpose:%s:coverage" % name, where0, "load / store not recognised (%s)" % sorted(done))
         except (Abstain, Unsupported) as ex:
@@ -1728,4 +1747,207 @@ def r41_multi_index(facts):
             c.unk(inst, where, "the index computation is outside the list evaluator (rank %d: %s)" % (unk[0], unk[2]))
         else:
             c.ok(inst, where, "row-major position for all %d (rank, unit-dimension pattern) cases of ranks 1..4" % n_ok)
+    return c
+
+
+# ====================================================================================== the additive term covers the output group
+
+class _ItAbstain(Exception):
+    pass
+
+
+def r49_addend_coverage(facts):
+    """ADDEND-COVERAGE: before the product is accumulated, the output group (rows x cols values) is pre-set from the additive term for every admitted shape of the term - a single value, one row [cols], or a full [rows, cols] block: the iterator pipeline that copies it writes rows x cols elements in each case (iterator lengths computed from the adaptors, nothing is run)"""
+    from .shape_rules import find_product_ctor
+    from .facts import is_sliced_closure
+    c = Ctx("R49", facts, "matrix product: the additive term is copied over the whole output group for each of its admitted shapes")
+    ctors = find_product_ctor(facts)
+    c.floor("operation constructors taking two (array, transpose) pairs", len(ctors), 1)
+    IT_ = "core::iter::traits::iterator::Iterator::"
+    INF = float("inf")
+    for b in ctors:
+        name = b.get("name")
+        where0 = "%s:%d" % (F.rel(b["file"]), b["sp"][0])
+        closures = [nb for nb in facts.nested(b) if nb is not b and is_sliced_closure(nb, facts)]
+        fl = facts.float or "f64"
+        done = False
+        for nb in closures:
+            cps = [p for p in facts.params(nb) if p.get("pat")]
+            if len(cps) < 2 or cps[0]["pat"].get("k") != "Binding" or cps[1]["pat"].get("k") != "Binding":
+                continue
+            outv, arrv = cps[0]["pat"]["v"], cps[1]["pat"]["v"]
+            root = facts.root(nb)
+            # the kernel call's (rows, cols, inner) triple names the extents
+            rows_v = cols_v = None
+            for n in walk(root):
+                if n.get("k") == "Call" and (n.get("callee") or {}).get("resolved_local"):
+                    for a in n["args"]:
+                        a0 = strip(a)
+                        if isinstance(a0, dict) and a0.get("k") == "Tuple" and a0.get("ty") == "(usize, usize, usize)":
+                            rows_v, cols_v = F.var_of(a0["fields"][0]), F.var_of(a0["fields"][1])
+            lets = {}
+            for n in walk(root):
+                if n.get("k") == "Block":
+                    for st in n["stmts"]:
+                        if st["s"] == "let" and st["pat"].get("k") == "Binding" and st.get("init") is not None:
+                            lets[st["pat"]["v"]] = st["init"]
+            # statements that copy from arrays[2] into the output slice
+            sites = []
+            for n in walk(root):
+                if n.get("k") == "Call" and callee(n) == IT_ + "for_each" and len(n["args"]) == 2:
+                    mentions_out = any(x.get("k") in ("VarRef", "UpvarRef") and x["v"] == outv for x in walk(n["args"][0]))
+                    mentions_c = any(x.get("k") == "Index" and F.var_of(x["e"]) == arrv and lit_value(x["i"]) == 2 for x in walk(n["args"][0]))
+                    if mentions_out and mentions_c:
+                        sites.append(n)
+            uses_c = any(x.get("k") == "Index" and F.var_of(x["e"]) == arrv and lit_value(x["i"]) == 2 for x in walk(root))
+            if not uses_c:
+                continue
+            done = True
+            inst = "addend:%s" % name
+            if len(sites) != 1 or rows_v is None or cols_v is None:
+                c.unk(inst, F.loc(nb, root), "how the additive term is copied into the output group is not an iterator pipeline this clause reads (%d candidate statements)" % len(sites))
+                continue
+            site = sites[0]
+
+            def num(e, env, depth=0):
+                e = strip(e)
+                if not isinstance(e, dict) or depth > 10:
+                    raise _ItAbstain("number")
+                k = e.get("k")
+                if k == "Literal":
+                    v = lit_value(e)
+                    if isinstance(v, int) and not isinstance(v, bool):
+                        return v
+                    raise _ItAbstain("literal")
+                if k in ("VarRef", "UpvarRef"):
+                    if e["v"] == rows_v:
+                        return env["rows"]
+                    if e["v"] == cols_v:
+                        return env["cols"]
+                    if e["v"] in lets:
+                        return num(lets[e["v"]], env, depth + 1)
+                    raise _ItAbstain("variable %s" % e["v"].split("#")[0])
+                if k in ("Borrow", "Deref", "Use", "Cast"):
+                    return num(e["e"], env, depth + 1)
+                if k == "Binary" and e.get("op") in ("Add", "Sub", "Mul", "Div"):
+                    l, r = num(e["l"], env, depth + 1), num(e["r"], env, depth + 1)
+                    if e["op"] == "Div":
+                        if r == 0:
+                            raise _ItAbstain("division by zero")
+                        return l // r
+                    return {"Add": l + r, "Sub": l - r, "Mul": l * r}[e["op"]]
+                if k == "Call" and callee(e) in ("core::slice::<impl [T]>::len", "alloc::vec::Vec::<T, A>::len") and e["args"]:
+                    sl = it(e["args"][0], env, depth + 1)
+                    if sl[0] == "slice":
+                        return sl[2]
+                raise _ItAbstain("number `%s`" % show(e)[:40])
+
+            def it(e, env, depth=0):
+                """('slice', src, len) | ('it', src, count, size) | ('zip', a, b)"""
+                e = strip(e)
+                if not isinstance(e, dict) or depth > 14:
+                    raise _ItAbstain("iterator")
+                k = e.get("k")
+                if k in ("VarRef", "UpvarRef"):
+                    if e["v"] == outv:
+                        return ("slice", "out", env["rows"] * env["cols"])
+                    if e["v"] in lets:
+                        return it(lets[e["v"]], env, depth + 1)
+                    raise _ItAbstain("variable %s" % e["v"].split("#")[0])
+                if k in ("Borrow", "Deref", "Use"):
+                    return it(e["e"], env, depth + 1)
+                if k == "Index" and F.var_of(e["e"]) == arrv:
+                    if lit_value(e["i"]) == 2:
+                        return ("slice", "c", env["lc"])
+                    raise _ItAbstain("another operand slice")
+                if k != "Call" or not e["args"]:
+                    raise _ItAbstain("expression `%s`" % show(e)[:40])
+                cn = callee(e) or ""
+                tail = cn.rsplit("::", 1)[-1]
+                if cn in ("core::ops::deref::Deref::deref", "core::ops::deref::DerefMut::deref_mut", "core::ops::index::Index::index") and tail != "index":
+                    return it(e["args"][0], env, depth + 1)
+                if cn == "core::ops::index::Index::index" and len(e["args"]) == 2 and F.var_of(e["args"][0]) == arrv:
+                    if lit_value(e["args"][1]) == 2:
+                        return ("slice", "c", env["lc"])
+                    raise _ItAbstain("another operand slice")
+                a0 = it(e["args"][0], env, depth + 1)
+                if tail in ("iter", "iter_mut", "into_iter") and a0[0] == "slice":
+                    return ("it", a0[1], a0[2], 1)
+                if tail in ("into_iter", "copied", "cloned", "rev", "by_ref", "enumerate", "peekable", "fuse") and a0[0] in ("it", "zip"):
+                    return a0
+                if tail in ("chunks_exact", "chunks_exact_mut") and a0[0] == "slice" and len(e["args"]) == 2:
+                    n_ = num(e["args"][1], env)
+                    if n_ <= 0:
+                        raise _ItAbstain("chunk size 0")
+                    return ("it", a0[1], a0[2] // n_, n_)
+                if tail in ("chunks", "chunks_mut") and a0[0] == "slice" and len(e["args"]) == 2:
+                    n_ = num(e["args"][1], env)
+                    if n_ <= 0 or a0[2] % n_ != 0:
+                        raise _ItAbstain("chunks with a partial last chunk")
+                    return ("it", a0[1], a0[2] // n_, n_)
+                if tail == "cycle" and a0[0] == "it":
+                    return ("it", a0[1], INF if a0[2] > 0 else 0, a0[3])
+                if tail == "take" and a0[0] in ("it",) and len(e["args"]) == 2:
+                    return ("it", a0[1], min(a0[2], num(e["args"][1], env)), a0[3])
+                if tail == "skip" and a0[0] == "it" and len(e["args"]) == 2:
+                    return ("it", a0[1], max(0, a0[2] - num(e["args"][1], env)), a0[3])
+                if tail == "zip" and len(e["args"]) == 2:
+                    b0 = it(e["args"][1], env, depth + 1)
+                    if b0[0] == "slice":
+                        b0 = ("it", b0[1], b0[2], 1)
+                    if a0[0] == "slice":
+                        a0 = ("it", a0[1], a0[2], 1)
+                    return ("zip", a0, b0)
+                raise _ItAbstain("adaptor `%s`" % tail)
+
+            def count_of(x):
+                if x[0] == "zip":
+                    return min(count_of(x[1]), count_of(x[2]))
+                return x[2]
+
+            def out_size(x):
+                if x[0] == "zip":
+                    return out_size(x[1]) or out_size(x[2])
+                return x[3] if x[1] == "out" else None
+
+            # the closure must store into the output side
+            clo = strip(site["args"][1])
+            cb = facts.body(clo["closure"]) if isinstance(clo, dict) and clo.get("k") == "Closure" else None
+            writes = False
+            if cb is not None:
+                for n in walk(facts.root(cb)):
+                    if n.get("k") in ("Assign",) and strip(n["l"]).get("k") == "Deref":
+                        writes = True
+                    if n.get("k") == "Call" and (callee(n) or "").rsplit("::", 1)[-1] in ("copy_from_slice", "clone_from_slice"):
+                        writes = True
+            if not writes:
+                c.unk(inst, F.loc(nb, site), "the copying closure is not a plain store / copy_from_slice")
+                continue
+            short = None
+            why = None
+            try:
+                for rows_ in (1, 2, 3):
+                    for cols_ in (1, 2, 3):
+                        for lc in sorted({1, cols_, rows_ * cols_}):
+                            env = {"rows": rows_, "cols": cols_, "lc": lc}
+                            pipe = it(site["args"][0], env)
+                            cnt, sz = count_of(pipe), out_size(pipe)
+                            if sz is None:
+                                raise _ItAbstain("the output slice is not one side of the pipeline")
+                            written = cnt * sz
+                            if written != rows_ * cols_ and short is None:
+                                short = (rows_, cols_, lc, written)
+            except _ItAbstain as ex:
+                why = str(ex)
+            if why is not None:
+                c.unk(inst, F.loc(nb, site), "the pipeline copying the additive term is outside the iterator model (%s)" % why)
+            elif short is not None:
+                r_, c_, l_, w_ = short
+                c.bad(inst, F.loc(nb, site), "for a %d x %d output group and an additive term of %d value%s the copying pipeline writes %s of the %d output elements: the term is "
+                      "%s for that shape (every admitted shape - a single value, one row, a full block - must be broadcast over the whole group)"
+                      % (r_, c_, l_, "" if l_ == 1 else "s", "none" if w_ == 0 else w_, r_ * c_, "silently dropped" if w_ == 0 else "only partly applied"))
+            else:
+                c.ok(inst, F.loc(nb, site), "the copying pipeline writes rows x cols elements for a single-value, a one-row and a full-block additive term (groups up to 3 x 3)")
+        if not done:
+            c.unk("addend:%s" % name, where0, "no use of the additive term's slice found in the product's slice closure")
     return c
